@@ -21,7 +21,11 @@ n = 0
 for d in sorted(glob.glob('seeded/C*-*')):
     k = os.path.basename(d)
     if not k.startswith(prefix): continue
-    prop = json.load(open(d+'/meta.json'))['property']
+    meta = json.load(open(d+'/meta.json'))
+    prop = meta['property']
+    if meta.get('obsolete'):
+        print('OBSOLETE ' + k + ': ' + meta['obsolete'][:120], flush=True)
+        continue
     jobs.put((k, os.path.abspath(d+'/patch.diff'), OTHER.get(k, prop), False)); n += 1
 for f in sorted(glob.glob('seeded/regress/revert-*.diff')):
     c = re.search(r'revert-(\w+)\.diff', f).group(1)
